@@ -1,5 +1,5 @@
 """C02 - watch streams are exact, ordered change logs (or fail loudly)."""
-import vlib, watchlib
+import vlib, watchlib, inmemlib
 
 # classes of rejection that belong to C12 (bookmark / tail start outcomes) are reported there
 C12_WHATS = {"bookmark-outcome", "bookmark-error-class"}
@@ -15,7 +15,7 @@ def run(ctx):
     groups = watchlib.gen_groups(ctx, configs, 40 if quick else 400, 40 if quick else 60)
     ctx.cov["behaviours_replayed"] = sum(len(g["behs"]) for g in groups)
     ctx.sample({"ring": configs[0], "behaviour_head": groups[0]["behs"][0][:8]})
-    files = watchlib.drive(ctx, groups, extras=False)
+    files = watchlib.drive(ctx, groups, extras=False, hook_prop="C02")
     total, rej = watchlib.judge(ctx, groups, files)
     ctx.cov["traces_validated_against_impl"] += total
     ctx.sample({"trace_head": vlib.read_ndjson(files[0])[:6]})
@@ -25,6 +25,8 @@ def run(ctx):
         key = "%s/%s" % (r["what"], r["record"].get("ev"))
         ctx.violation(key, "ring %s: %s at line %d: %s" % (r["config"], r["what"], r["line"], r["detail"]), r)
     watchlib.selftest(ctx, groups, files, {r["tid"] for r in rej})
+    # the repository's own test suites with the hooks on: every watch start, ring read and hand-off they cause is judged
+    inmemlib.stage(ctx, "C02", ctx.tier)
     ctx.assumptions += [
         "watcher read timing on the real code is eager (after each publish) or late (after a burst under GOMAXPROCS(1)); all read interleavings are exhaustive only in the TLC model",
         "subscriber lag (committed events not yet received) bounds the ring lag from above, so errored => lag > InitCap is sound",
